@@ -214,6 +214,7 @@ class ProxyProtocolV2(object):
                   0x30: socket.AF_UNIX}
     __protocols = {0x01: socket.SOCK_STREAM,
                    0x02: socket.SOCK_DGRAM}
+    __transports = (0x00, 0x11, 0x12, 0x21, 0x22, 0x31, 0x32)
 
     @classmethod
     def __read_pp_data(cls, sock, length, initial):
@@ -234,6 +235,9 @@ class ProxyProtocolV2(object):
             'Invalid proxy protocol v2 signature'
         assert data[12] & 0xf0 == 0x20, 'Invalid proxy protocol version'
         command = cls.__commands.get(data[12] & 0x0f)
+        assert command is not None, 'Invalid proxy protocol command'
+        assert command == 'local' or data[13] in cls.__transports, \
+            'Invalid proxy protocol address family or transport'
         family = cls.__families.get(data[13] & 0xf0)
         protocol = cls.__protocols.get(data[13] & 0x0f)
         addr_len = struct.unpack('!H', data[14:16])[0]
